@@ -68,6 +68,10 @@ func GetEnv() (*Env, error) {
 	envOnce.Do(func() {
 		log.SetOutput(io.Discard)
 		log.SetLevel(log.PanicLevel)
+		if os.Getenv("VERIF_LOG") != "" {
+			log.SetOutput(os.Stdout)
+			log.SetLevel(log.ErrorLevel) // triage aid
+		}
 		envInst, envErr = newEnv()
 	})
 	return envInst, envErr
